@@ -19,7 +19,7 @@ LEVEL_NOTE = ('Trusted: Lean kernel + Mathlib; that np.dot/np.outer/np.exp compu
 TECHNIQUE = 'Lean 4 proof (Finset sums, Complex.exp, primitive roots of unity) over a generic executable model + differential correspondence'
 GEN = []
 OPS = ['C01']
-RULE = ('cases: dft2 / idft2 with input and output shapes drawn independently from 1..7 (thorough 1..12; forced 1x1, single row/column, '
+RULE = ('cases: dft2 / idft2 with input and output shapes drawn independently from 1..7 (thorough 1..12 with a 5 % tail up to 16; forced 1x1, single row/column, '
         'even/odd, non-square), complex Gaussian data, per-axis α drawn independently from {1/n_in, 1/n_out, random in ±(0.01,0.6)}, '
         'real shifts in [-3,3], integer offsets in [-9,9], both flags, with and without out=, bursts of repeated shapes with fresh '
         'offsets (coordinate cache); plus full-period round trips. distinct = (kind, shapes, α class per axis, shift/offset zero-ness, '
@@ -87,10 +87,11 @@ def _case(rng, kmax, prev=None):
             'shift': shift, 'offset': offset, 'unitary': unitary, 'out': bool(rng.integers(0, 3) == 0)}
 
 def generate(rng, tier):
-    n, kmax = {'quick': (300, 7), 'thorough': (4000, 12), 'search': (1500, 7)}[tier]
+    n, kmax = {'quick': (300, 7), 'thorough': (8000, 12), 'search': (1500, 7)}[tier]
     out, prev = [], None
     for _ in range(n):
-        c = _case(rng, kmax, prev); out.append(c); prev = c
+        k = 16 if (tier == 'thorough' and rng.integers(0, 20) == 0) else kmax      # a 5 % tail of shapes up to 16
+        c = _case(rng, k, prev); out.append(c); prev = c
     return out
 
 def _full_period(c):
